@@ -1,5 +1,5 @@
 """pieces shared by several property plans"""
-import os, subprocess, tempfile
+import os, sys, subprocess, tempfile
 from .core import VERIF, REPO, sh
 
 def pre_model_selftest(R):
@@ -20,3 +20,52 @@ BASE_ASSUMPTIONS = [
     'all loops unwound with --unwinding-assertions; a bound that is too small is reported, not truncated',
     'x86-64 little-endian host macros as gcc predefines them; gcc\'s own code generation is outside the claim',
 ]
+
+LIB_C = ['skinny-internal', 'skinny128-cipher', 'skinny128-ctr', 'skinny128-ctr-vec128', 'skinny128-ctr-vec256',
+         'skinny128-parallel', 'skinny128-parallel-vec128', 'skinny128-parallel-vec256', 'skinny64-cipher', 'skinny64-ctr',
+         'skinny64-ctr-vec128', 'skinny64-parallel', 'skinny64-parallel-vec128', 'mantis-cipher', 'mantis-ctr',
+         'mantis-ctr-vec128', 'mantis-parallel', 'mantis-parallel-vec128']
+
+def vec_flag(name):
+    return '-mavx2' if 'vec256' in name else '-msse2'
+
+def pre_ll_diff(R):
+    """differential validation of ll2c on every run: gcc build of the generated C vs gcc build of the real
+    functions (scalar ciphers, parallel batch functions, whole CTR sessions through the vec vtables)"""
+    import os
+    from .core import INC, dflags, cfg_defs, GUARD
+    d = os.path.join(R.scratch, 'lldiff'); os.makedirs(d, exist_ok=True)
+    objs = []; inits = []
+    inc = INC
+    for f in LIB_C:
+        src = os.path.join(REPO, 'src', f + '.c')
+        # real object, shipped flags
+        rc, out, _, _, _ = sh(['gcc', '-std=c99', '-O3', '-w', vec_flag(f), '-D' + GUARD] + inc + ['-c', src, '-o', os.path.join(d, 'r_%s.o' % f)], timeout=300)
+        if rc: return False, 'll-diff: gcc failed on %s: %s' % (f, out[-300:])
+        objs.append(os.path.join(d, 'r_%s.o' % f))
+        if f in ('skinny-internal', 'skinny128-ctr', 'skinny64-ctr', 'mantis-ctr', 'skinny128-parallel', 'skinny64-parallel', 'mantis-parallel'):
+            continue
+        ll = os.path.join(d, f + '.ll'); c = os.path.join(d, 'l_%s.c' % f)
+        rc, out, _, _, _ = sh(['clang-14', '-std=c99', '-O1', '-fno-vectorize', '-fno-slp-vectorize', '-fno-unroll-loops', vec_flag(f), '-D' + GUARD] + inc +
+                              ['-S', '-emit-llvm', src, '-o', ll], timeout=300)
+        if rc: return False, 'll-diff: clang failed on %s: %s' % (f, out[-300:])
+        tag = f.replace('-', '_')
+        rc, out, _, _, _ = sh([sys.executable, os.path.join(VERIF, 'vlib', 'll2c.py'), ll, c, c + '.json', '--tag', tag], timeout=300)
+        if rc: return False, 'll-diff: ll2c cannot translate %s: %s' % (f, out[-300:])
+        inits.append('ll2c_init_' + tag)
+        rc, out, _, _, _ = sh(['gcc', '-std=gnu99', '-O1', '-w', '-c', c, '-o', os.path.join(d, 'l_%s.o' % f)], timeout=300)
+        if rc: return False, 'll-diff: gcc failed on translated %s: %s' % (f, out[-300:])
+        objs.append(os.path.join(d, 'l_%s.o' % f))
+    with open(os.path.join(d, 'inits.c'), 'w') as fh:
+        fh.write(''.join('void %s(void);\n' % i for i in inits) + 'void ll_inits_all(void){ %s }\n' % ' '.join(i + '();' for i in inits))
+    # translated skinny_calloc/has_vec are not linked: the translated vec modules call ll_skinny_calloc etc.
+    with open(os.path.join(d, 'glue.c'), 'w') as fh:
+        fh.write('#include <stdint.h>\n#include <stddef.h>\nvoid *skinny_calloc(size_t, void **);\n'
+                 'uint8_t *ll_skinny_calloc(uint64_t n, uint8_t *b){ return (uint8_t*)skinny_calloc(n, (void**)b); }\n')
+    exe = os.path.join(d, 'lldiff')
+    rc, out, _, _, _ = sh(['gcc', '-std=gnu99', '-O1', '-w', '-DLL_INITS=ll_inits_all'] + inc +
+                          [os.path.join(VERIF, 'harness', 'll_diff.c'), os.path.join(d, 'inits.c'), os.path.join(d, 'glue.c')] + objs + ['-o', exe], timeout=300)
+    if rc: return False, 'll-diff: link failed: ' + out[-800:]
+    rc, out, _, _, _ = sh([exe], timeout=300)
+    ok = rc == 0 and 'LL-DIFF-OK' in out
+    return ok, 'll2c differential validation (translated C vs real functions, gcc builds): ' + out.strip()[-200:]
